@@ -62,6 +62,9 @@ func scenarios(tier string) []svc.Scenario {
 		{Name: "mark-edit-and-import-during-job", Program: []string{"import:P1+P2", "addtag:mark/m=id:0", "addtag:tag/t=mark:m", "markadd:mark/m=1", "import:P4"}},
 		// one converter attached to a mark tag and to a query tag that match the same stream; the mark is taken away
 		{Name: "converter-on-mark-and-tag-unmark", Converter: true, Program: []string{"import:P1", "addtag:mark/m=id:0", "converters:mark/m=conv", "addtag:tag/p=cport:1", "converters:tag/p=conv", "markdel:mark/m=0"}},
+		// two converters on one tag, the second attached after the first has converted: an import extends the
+		// stream while the job of the second converter is in flight
+		{Name: "converter-pair-on-one-tag", Converter: true, Program: []string{"import:P1", "addtag:tag/p=cport:1", "converters:tag/p=conv", "converters:tag/p=conv,conv2", "import:P3"}},
 		{Name: "two-tags", Program: []string{"addtag:tag/p=cport:1", "addtag:tag/d=cdata:foo3", "import:P1", "import:P3"}},
 	}
 	if tier == "thorough" {
